@@ -84,6 +84,13 @@ class Check:
         self.instances[rule] = self.instances.get(rule, 0) + 1
         return bool(ok)
 
+    def undecided(self, rule, construct, loc, why):
+        """the construct is written in an idiom the rule does not recognise:
+        neither discharged nor violated; it does not count towards the floor,
+        so an instance confirmed today that becomes undecidable fails the run
+        as analysis-broken (exit 2), never as a violation and never silently."""
+        self.notes.append(f'UNDECIDED {rule} {construct} at {loc}: {why}')
+
     def floor(self, rule: str, n: int) -> None:
         """vacuity guard: the rule must have matched at least n instances"""
         self.floors[rule] = n
